@@ -27,6 +27,23 @@ def b64(obj):
     return base64.b64encode(json.dumps(obj, separators=(",", ":")).encode()).decode()
 
 
+def b64_styled(obj, rng):
+    """the same JSON value, now and then written the way other clients write it (blanks after ':' and ',', indented, with a
+    trailing newline): hook payloads are parsed, not compared"""
+    r = rng.random()
+    if r < 0.8:
+        return b64(obj)
+    if r < 0.87:
+        text = json.dumps(obj)                      # ", " and ": "
+    elif r < 0.93:
+        text = json.dumps(obj, indent=2)
+    elif r < 0.97:
+        text = json.dumps(obj, separators=(",", ":")) + "\n"
+    else:
+        text = " " + json.dumps(obj, separators=(" , ", " : ")) + " "
+    return base64.b64encode(text.encode()).decode()
+
+
 def dec_str(atomics):
     """cosmwasm Decimal / Decimal256 text for an atomics integer (18 fractional digits)."""
     w, f = divmod(atomics, D)
@@ -57,16 +74,24 @@ class Ledger:
     def __init__(self, world, snap):
         bal = {}
         accts, denoms, toks = world.t_accounts, world.t_denoms, world.t_tokens
+        prev = getattr(world, "ledger", None)
+        frozen = getattr(world, "frozen", ())
         try:
             keys = [world.denom_key(d) for d in denoms]
             for a, row in zip(accts, snap["bank"]):
                 for d, v in zip(keys, row):
                     bal[(a, d)] = int(v)
             for t, row in zip(toks, snap["cw20"]):
+                if t in frozen and prev is not None:
+                    # a frozen token answers no query; it cannot move either, so its cells are what they were
+                    for a in accts:
+                        bal[(a, t)] = prev.bal.get((a, t), 0)
+                    continue
                 for a, v in zip(accts, row):
                     bal[(a, t)] = int(v)
-            self.supply = dict((t, int(v)) for t, v in zip(toks, snap["supply"]))
-            self.allow = [int(v) for v in snap["allow"]]
+            self.supply = dict((t, (prev.supply[t] if (t in frozen and prev is not None) else int(v))) for t, v in zip(toks, snap["supply"]))
+            self.allow = [(prev.allow[i] if (prev is not None and world.by_allow[i][0] in frozen) else int(v))
+                          for i, v in enumerate(snap["allow"])]
         except ValueError:
             raise HarnessFault("snapshot query failed: %r" % (snap,))
         self.bal = bal
@@ -143,6 +168,7 @@ class World:
             denom_pool = ["factory/aura1fqj2redmssckrdeekhkcvd2kzp9f4nks4fctrt/uhalo",
                           "factory/aura1uh24g2lc8hvvkaaf7awz25lrh5fptthu2dhq0n/uhalo"] + denom_pool
         self.glued = False
+        self.frozen = set()
         if rng_.random() < 0.15:
             # three denoms whose names glue together ambiguously: "uaura"+"uaurau" == "uaurau"+"aurau"
             denom_pool = ["uaura", "uaurau", "aurau"] + [d for d in denom_pool if d != "uaura"]
@@ -192,7 +218,7 @@ class World:
             t = self._inst("ltoken" if i == self.ltoken_at else "cw20", "owner", {
                 "name": "token%d" % i, "symbol": "TK" + "ABCDEFG"[i], "decimals": dec,
                 "initial_balances": [{"address": a, "amount": str(BAL)} for a in ACTORS if a != "recv"],
-                "mint": None})
+                "mint": None}, admin="owner")
             self.tokens.append(("t", t))
             self.decimals[t] = dec
         self.rogue = self._inst("cw20", "attacker", {
@@ -344,8 +370,10 @@ class World:
             reqs.append({"op": "bank", "from": op["actor"], "to": op["contract"], "funds": op["funds"], "snap": True})
         elif op.get("wasm_migrate"):
             # the contract's wasm admin migrates it to the code registered under this name
+            if op.get("freeze") is True:
+                self.frozen.add(op["contract"])       # (the snapshot after the step can no longer query it)
             reqs.append({"op": "migrate", "sender": op["actor"], "contract": op["contract"], "code": op["wasm_migrate"],
-                         "msg": "{}", "snap": True})
+                         "msg": op.get("migrate_msg", "{}"), "snap": True})
         else:
             m = op["msg"]
             reqs.append({"op": "exec", "sender": op["actor"], "contract": op["contract"],
@@ -353,6 +381,10 @@ class World:
                          "funds": op.get("funds") or [], "snap": True})
         resps = self.srv.send(reqs)
         res = resps[-1]
+        if op.get("freeze") is True and res["r"] != "ok":
+            self.frozen.discard(op["contract"])
+        if op.get("freeze") is False and res["r"] == "ok":
+            self.frozen.discard(op["contract"])
         pre = self.ledger
         post = Ledger(self, res.pop("snap"))
         self.ledger = post
@@ -406,7 +438,7 @@ class World:
             return {"kind": "swap", "actor": actor, "contract": pair.addr, "msg": inner, "funds": funds, "sem": sem}
         # hook: delivered must be a cw20 contract
         sem["funds"] = []
-        msg = {"send": {"contract": pair.addr, "amount": str(delivered_amt), "msg": b64(inner)}}
+        msg = {"send": {"contract": pair.addr, "amount": str(delivered_amt), "msg": b64_styled(inner, self.rng)}}
         return {"kind": "swap", "actor": actor, "contract": delivered[1], "msg": msg, "funds": [], "sem": sem}
 
     def op_provide(self, actor, pair, amounts, receiver=None, slippage=None, reverse=False, funds_override=None):
@@ -426,7 +458,7 @@ class World:
                         "funds": [(d, int(a)) for d, a in funds], "well_formed": funds_override is None}}
 
     def op_withdraw(self, actor, pair, amount):
-        msg = {"send": {"contract": pair.addr, "amount": str(amount), "msg": b64({"withdraw_liquidity": {}})}}
+        msg = {"send": {"contract": pair.addr, "amount": str(amount), "msg": b64_styled({"withdraw_liquidity": {}}, self.rng)}}
         return {"kind": "withdraw", "actor": actor, "contract": pair.lp, "msg": msg, "funds": [],
                 "sem": {"pair": pair, "amount": amount}}
 
@@ -455,7 +487,7 @@ class World:
             sem["funds"] = [(d, int(a)) for d, a in funds]
             return {"kind": "route", "actor": actor, "contract": self.router, "msg": inner, "funds": funds, "sem": sem}
         sem["funds"] = []
-        msg = {"send": {"contract": self.router, "amount": str(amount), "msg": b64(inner)}}
+        msg = {"send": {"contract": self.router, "amount": str(amount), "msg": b64_styled(inner, self.rng)}}
         return {"kind": "route", "actor": actor, "contract": entry_asset[1], "msg": msg, "funds": [], "sem": sem}
 
     def op_donate(self, actor, target, asset, amount):
